@@ -34,32 +34,77 @@ Proof.
     unfold hook_marshal. rewrite Hb. reflexivity.
   - apply String.eqb_eq in Hok.
     unfold marshal_struct. destruct v; try reflexivity. unfold start_name. rewrite Hok.
-    apply String.eqb_neq in Hne. rewrite Hne. reflexivity.
+    apply String.eqb_neq in Hne. rewrite Hne. cbn [negb]. reflexivity.
 Qed.
+
+Lemma marshal_S : forall m, marshal sch (S m) = marshal_step sch (marshal sch m).
+Proof. reflexivity. Qed.
+Lemma FUEL_S : FUEL = S 15.
+Proof. reflexivity. Qed.
+
+Lemma top_encode : forall T nm v e,
+  nm <> "" -> top_name_ok (TNamed T) nm = true ->
+  marshal sch FUEL (TNamed T) v None (Some nm) = Ok [e] -> encode1 sch T v = Ok e.
+Proof.
+  intros T nm v e Hne Htop Hmm. unfold encode1, encode.
+  rewrite FUEL_S in Hmm |- *. rewrite marshal_S in Hmm |- *.
+  rewrite (top_template _ _ nm _ Hne Htop). rewrite Hmm. reflexivity.
+Qed.
+
+Lemma top_decode : forall T v e,
+  wf sch FUEL (TNamed T) v = true ->
+  (forall m base, (FUEL <= m)%nat -> zero_like sch FUEL (TNamed T) base = true ->
+                  absorb sch m (TNamed T) base [e] = Ok v) ->
+  decode sch T e = Ok v.
+Proof.
+  intros T v e Hwf Habs. unfold decode.
+  assert (Hz : zero_like sch FUEL (TNamed T) (zero sch FUEL (TNamed T)) = true).
+  { apply zero_like_zero with (x := v); [lia | left; exact Hwf]. }
+  pose proof (Habs FUEL _ (le_n _) Hz) as Ha. cbn [absorb] in Ha.
+  destruct (unmarshal sch FUEL FUEL (TNamed T) (zero sch FUEL (TNamed T)) e); cbn [rbind] in Ha; [|discriminate].
+  exact Ha.
+Qed.
+
+Lemma FUEL_le : (FUEL <= FUEL)%nat.
+Proof. apply le_n. Qed.
+
+(* RT with the name given by a start template / by the field info; stated for a variable depth
+   so that instantiating it needs no conversion under tyok *)
+Lemma RT_tmpl : forall n ty v nm inslice,
+  (n <= FUEL)%nat -> wf sch n ty v = true -> tyok sch n ty nm false inslice = true -> nm <> "" ->
+  exists es,
+    (forall m, (n <= m)%nat -> marshal sch m ty v None (Some nm) = Ok es)
+    /\ Forall (fun e => xname e = nm) es
+    /\ (forall m base, (n <= m)%nat -> zero_like sch n ty base = true -> absorb sch m ty base es = Ok v)
+    /\ (one_ok sch ty v inslice = true -> exists e, es = [e]).
+Proof. intros n ty v nm inslice Hn Hwf Hty Hne. exact (RT_all sch n Hn ty v None (Some nm) inslice Hwf Hty Hne). Qed.
+
+Lemma RT_fld : forall n ty v nm omit inslice,
+  (n <= FUEL)%nat -> wf sch n ty v = true -> tyok sch n ty nm omit inslice = true -> nm <> "" ->
+  exists es,
+    (forall m, (n <= m)%nat -> marshal sch m ty v (Some (nm, omit)) None = Ok es)
+    /\ Forall (fun e => xname e = nm) es
+    /\ (forall m base, (n <= m)%nat -> zero_like sch n ty base = true -> absorb sch m ty base es = Ok v)
+    /\ (one_ok sch ty v inslice = true -> exists e, es = [e]).
+Proof. intros n ty v nm omit inslice Hn Hwf Hty Hne. exact (RT_all sch n Hn ty v (Some (nm, omit)) None inslice Hwf Hty Hne). Qed.
 
 Theorem roundtrip_top : forall T nm v,
   nm <> "" ->
   tyok sch FUEL (TNamed T) nm false false = true ->
   top_name_ok (TNamed T) nm = true ->
   is_struct (rk sch (TNamed T)) = true ->
-  wfb sch T v = true ->
+  wf sch FUEL (TNamed T) v = true ->   (* = wfb sch T v, by definition *)
   exists e, encode1 sch T v = Ok e /\ decode sch T e = Ok v /\ xname e = nm.
 Proof.
-  intros T nm v Hne Hty Htop Hst Hwf. unfold wfb in Hwf.
-  destruct (RT_all sch FUEL (le_n _) (TNamed T) v None (Some nm) false Hwf Hty Hne)
-    as [es [Hm [Hnames [Habs Hone]]]].
+  intros T nm v Hne Hty Htop Hst Hwf.
+  pose proof (RT_tmpl FUEL (TNamed T) v nm false FUEL_le Hwf Hty Hne) as HRT.
+  destruct HRT as [es [Hm [Hnames [Habs Hone]]]].
   assert (H1 : one_ok sch (TNamed T) v false = true).
-  { unfold one_ok. destruct (rk sch (TNamed T)); cbn in Hst; try discriminate. reflexivity. }
-  destruct (Hone H1) as [e ->]. exists e. split; [|split].
-  - unfold encode1, encode. pose proof (Hm FUEL (le_n _)) as Hmm.
-    unfold FUEL in *. cbn [marshal] in *. rewrite (top_template _ _ nm _ Hne Htop). rewrite Hmm. reflexivity.
-  - unfold decode.
-    assert (Hz : zero_like sch FUEL (TNamed T) (zero sch FUEL (TNamed T)) = true).
-    { apply zero_like_zero with (x := v); [lia | left; exact Hwf]. }
-    pose proof (Habs FUEL _ (le_n _) Hz) as Ha. cbn [absorb] in Ha.
-    destruct (unmarshal sch FUEL FUEL (TNamed T) (zero sch FUEL (TNamed T)) e); cbn [rbind] in Ha; [|discriminate].
-    exact Ha.
-  - inversion Hnames; subst. assumption.
+  { unfold one_ok. destruct (rk sch (TNamed T)); try discriminate Hst. reflexivity. }
+  destruct (Hone H1) as [e He]. subst es. exists e. split; [|split].
+  - exact (top_encode T nm v e Hne Htop (Hm FUEL FUEL_le)).
+  - exact (top_decode T v e Hwf Habs).
+  - apply Forall_inv in Hnames. exact Hnames.
 Qed.
 
 (* a value written as the field [nm] of a parent, read back from the zero value *)
@@ -72,10 +117,9 @@ Theorem roundtrip_field : forall ty nm omit v,
              /\ absorb sch FUEL ty (zero sch FUEL ty) es = Ok v.
 Proof.
   intros ty nm omit v Hne Hty Hwf.
-  destruct (RT_all sch FUEL (le_n _) ty v (Some (nm, omit)) None false Hwf Hty Hne)
-    as [es [Hm [Hnames [Habs _]]]]. cbn [given_name fi_name] in *.
-  exists es. split; [apply Hm; lia | split; [exact Hnames|]].
-  apply Habs; [lia|]. apply zero_like_zero with (x := v); [lia | left; exact Hwf].
+  destruct (RT_fld FUEL ty v nm omit false FUEL_le Hwf Hty Hne) as [es [Hm [Hnames [Habs _]]]].
+  exists es. split; [apply Hm; exact FUEL_le | split; [exact Hnames|]].
+  apply Habs; [exact FUEL_le|]. apply zero_like_zero with (x := v); [exact FUEL_le | left; exact Hwf].
 Qed.
 
 End Top.
